@@ -971,3 +971,7 @@ mod tests {
         assert_eq!(collected.as_mask().unwrap().len(), 0);
     }
 }
+
+#[cfg(kani)]
+#[path = "/verif/kani/parquet/arrow/arrow_reader/selection/mod.rs"]
+mod verif_kani;
